@@ -1118,7 +1118,12 @@ def r02g(model, ctx):
 
         def hole_src(n):
             h = t.hole_by_name(n.id) if isinstance(n, ast.Name) else None
-            return None if h is None else h.expr
+            x = None if h is None else h.expr
+            # a hole that is a plain local of gen(): the expression the local was bound to (e.g. a hoisted clear mask)
+            if isinstance(x, ast.Name) and x.id in binds and not isinstance(binds[x.id], ast.Name) and \
+                    x.id not in ("width_mask", "offset_mask", "offset"):
+                x = binds[x.id]
+            return x
 
         ok, why = False, ""
         m = pmatch("_V_OLD & _V_CLR | (_V_M & _V_NEW) << _V_SH", e)
@@ -1143,7 +1148,8 @@ def r02g(model, ctx):
             # the mask is the width mask of the selected window
             W = pyrtl_common.mask_width(mask_e, binds) if mask_e is not None else None
             wtxt = unparse(W) if W is not None else None
-            ok = ok and wtxt in (("value.stop - value.start",) if meth == "on_Slice" else ("value.width",))
+            # (len(slice) is stop - start: Slice.shape, R-01e)
+            ok = ok and wtxt in (("value.stop - value.start", "len(value)") if meth == "on_Slice" else ("value.width",))
         ctx.check(ok, R, f"_LHSValueCompiler.{meth}", "(old & ~(M << S)) | ((M & new) << S) with one M and one S",
                   f"read-modify-write must clear and set the same window: (old & ~(M << S)) | ((M & new) << S); "
                   f"template {t.skeleton()!r}; {why}", f"{PYRTL}:{fn.lineno}")
